@@ -151,16 +151,24 @@ def unmetHypothesis (E : Edges) : Option String :=
 
 /-! cases and observations of the `cli` engine -/
 
-inductive Case where
-  | reg (fixture : String) (variant : String) (expected : Reg) (avail : List Crate)
-  | proto (fixture : String) (ty : String) (traced : Container) (avail : List Crate)
-
 inductive Obs where
   | reg (r : Reg)
   | container (c : Container)
   | missing
-  | invalidOrder
   | other (cls : String)      -- err / panic / nondet / stale-description …
+
+inductive Case where
+  | reg (fixture : String) (variant : String) (expected : Reg) (avail : List Crate)
+  | proto (fixture : String) (ty : String) (traced : Container) (avail : List Crate)
+  /-- a synthetic description (outside the quantifier of C20: it may be unclosed, clash, panic, fail to load);
+      `expected` is the real CLI's observation on the untransformed description -/
+  | syn (fixture : String) (variant : String) (expected : Obs) (avail : List Crate)
+
+def Obs.toks : Obs → List String
+  | .reg r => "ok" :: Reg.toks r
+  | .container c => "ok" :: Container.toks c
+  | .missing => ["missing"]
+  | .other cls => [cls]
 
 def variantKey (variant : String) : String :=
   match String.ofList (variant.toList.takeWhile fun ch => ch != ':') with
@@ -172,7 +180,6 @@ def variantKey (variant : String) : String :=
 
 /-- `none` = accepted -/
 def verdict : Case → Obs → Option String
-  | .reg _ _ _ _, .invalidOrder => none          -- an order `run` cannot take: nothing to demand
   | .reg _ variant expected avail, .reg r =>
     if Reg.toks r != Reg.toks expected then some (variantKey variant)
     else match unresolved r with
@@ -185,6 +192,11 @@ def verdict : Case → Obs → Option String
   | .proto _ ty traced _, .container c =>
     if Container.toks c != Container.toks traced then some ("proto-mismatch:" ++ ty) else none
   | .proto _ ty _ _, .missing => some ("proto-missing:" ++ ty)
+  | .syn _ variant expected _, o =>
+    if Obs.toks o != Obs.toks expected then some ("syn-" ++ variantKey variant)
+    else match o with
+      | .reg r => (match gaps r with | n :: _ => some ("syn-variant-index-gap:" ++ n) | [] => none)
+      | _ => none
   | _, .other cls => some ("no-registry:" ++ cls)
   | _, _ => some "observation-of-wrong-kind"
 
